@@ -4,7 +4,7 @@ from ..macmodel import check_history
 from .. import oracle as o
 
 ID = 'C08'
-RULE = ('one record per (digest, key, message, chunking): Hmac over every legacy Digest type (18 algorithms, BLAKE2 at several output sizes); '
+RULE = ('(every input() piece is handed to the library from byte offset (len + first byte) mod 16 of a 64-byte aligned buffer) one record per (digest, key, message, chunking): Hmac over every legacy Digest type (18 algorithms, BLAKE2 at several output sizes); '
         'key lengths 0,1,bs-1,bs,bs+1,2bs+3,random; result must equal H((K^opad)||H((K^ipad)||m)) and output_bytes the digest size; '
         'three messages of 2^29 - 64 + k bytes (the inner hash length field passes 2^32 bits); distinct = (digest, key length class, message length, chunking)')
 ASSUMPTIONS = ['python hmac construction over hashlib / pure Keccak; block size of SHA-3/Keccak = sponge rate']
